@@ -304,7 +304,11 @@ theorem mask_step_progress (im g : Nat) (bits : List Nat) (ok : MaskOK im g bits
 example : inMask [.localData, .data, .writeOnly, .ctl1, .data] = 5 ∧ goalMask [.localData, .data, .writeOnly, .ctl1, .data] = 31 ∧
     releaseBits [.localData, .data, .writeOnly, .ctl1, .data] = [1, 3, 4] := by decide
 example : MaskOK 5 31 [1, 3, 4] := by decide
-example : MaskOK 5 31 [1, 3, 4] := maskOK_of_flows [.localData, .data, .writeOnly, .ctl1, .data] (by decide) (by decide)
+example : MaskOK 5 31 [1, 3, 4] := maskOK_of_flows [.localData, .data, .writeOnly, .ctl1, .data] (by decide) (by decide) (by decide)
+/-- a data flow whose first applicable input comes from a task, followed by an unguarded collection fallback: the
+    IN computation must NOT pre-set its bit (the scan stops at the first applicable dependency) -/
+example : inMask [.dataDeps [(.f, true), (.t, false), (.none, true)], .data] = 0 ∧
+    releaseBits [.dataDeps [(.f, true), (.t, false), (.none, true)], .data] = [0, 1] := by decide
 example : (mrun 5 31 [1, 3, 4] [0, 1, 0, 2, 2, 1]).pcs = [.done false, .done true, .done false] ∧
     (mrun 5 31 [1, 3, 4] [0, 1, 0, 2, 2, 1]).w = 2 ^ 30 + 31 ∧
     (mrun 5 31 [1, 3, 4] [0, 1, 0, 2, 2]).pcs = [.done false, .orr (2 ^ 30 + 8 + 5), .done false] := by
